@@ -122,4 +122,11 @@ var propSpecs = []PropSpec{
 		NotDecided:  "that a more precise type never yields fewer diagnostics downstream (relational over all expressions and environments); function-signature overload resolution",
 		Assumptions: commonAssumptions,
 	},
+	{
+		ID:          "C14",
+		Rules:       []string{"C14.DATA", "C14.REQ", "C14.USE", "C14.OUT", "C14.TYPE", "C08.KEYW", "C08.KEYR"},
+		Explanation: "Decides the structural clauses of interface checking: (DATA) the bundled data set is enumerated completely from its literal: every spec is well-formed and unique, every input/output key is the lower-cased declared name, and no spec is both current and outdated; (REQ) every store to the Required field of an action or reusable-workflow input is `required && Default == nil` with a pointer-typed Default, so the three derivations agree; (USE) for each of the three (call-site table, declared table) pairs the undeclared-name report is control-dependent on exactly the failed lookup of the call site's key in the declared table, the missing collection on exactly Required and the failed lookup of the declared key in the call-site table, every collected name is reported, secrets are skipped only under inherit, and bundled actions are checked iff found and not skip_inputs; (OUT) an open outputs object is returned only on paths where one of the enumerated reasons holds and the strict object is filled from the declared outputs; (TYPE) the typed input check is control-dependent on Assignable of the declared type of the same-named input; (KEYW/KEYR, shared with C08) the tables are written and read with lower-cased keys.",
+		NotDecided:  "agreement of the bundled data with the actions' real action.yml files; YAML decoding of metadata files; the type computed for a literal `with:` value",
+		Assumptions: commonAssumptions,
+	},
 }
